@@ -13,4 +13,11 @@ open BHS.Props.C13
 #print axioms C13_getheaders_cap
 #print axioms C13_empty_locator_counterexample
 #print axioms C13_stop_genesis_counterexample
+#print axioms C13_root_stored_reachable
+#print axioms C13_zero_not_stored_reachable
+#print axioms C13_locator_reachable
+#print axioms C13_locator_ends_reachable
+#print axioms C13_getheaders_partial_reachable
+#print axioms C13_stop_lower_reachable
+#print axioms C13_getheaders_cap_reachable
 #print axioms BHS.Props.SqlShape.getheaders_statements
